@@ -8,14 +8,12 @@ Definition statics : list opinfo :=
 
 Definition of_cell (c : N) : option opinfo :=
   if c <? 16 then find (fun o => o_cell o =? c) statics
-  else
+  else if c <? 4294967296 then
     match nth_error opdict (N.to_nat ((c - 16) / 4)) with
-    | Some (_, ch) => match nth_error ch (N.to_nat ((c - 16) mod 4)) with
-                      | Some (ty, pr) => Some (OI ty pr c)
-                      | None => None
-                      end
-    | None => None
-    end.
+    | Some (_, (ty, pr) :: _) => if (c - 16) mod 4 =? 0 then Some (OI ty pr c) else None
+    | _ => None
+    end
+  else let e := c - 4294967296 in Some (OI ((e / 1024) mod 16) (e mod 1024) c).     (* a later alternative: its content *)
 
 Definition opinfo_eqb (a b : opinfo) : bool := (o_ty a =? o_ty b) && (o_prio a =? o_prio b) && (o_cell a =? o_cell b).
 Definition goodb (o : opinfo) : bool := match of_cell (o_cell o) with Some o' => opinfo_eqb o o' | None => false end.
